@@ -34,6 +34,9 @@ enum Op {
 	MineTtl,
 	/// finalize F, post it and mine it, landing in one gap
 	FinPostMine,
+	/// a caller looks at the wallet: `retrieve_summary_info(refresh = true)`, i.e. a complete nested
+	/// refresh on another thread (the usual situation of a GUI or `info` call while the updater runs)
+	Look,
 }
 
 #[derive(Clone, Copy, Debug, PartialEq)]
@@ -160,6 +163,10 @@ fn do_op(cx: &RunCtx, op: &Op) -> String {
 					k += 1;
 				}
 				Ok(())
+			}
+			Op::Look => {
+				let w = cx.world.borrow();
+				w.wallets[0].info(true, 1).map(|_| ())
 			}
 			Op::FinPostMine => {
 				let tx = {
@@ -468,7 +475,7 @@ pub fn run(a: &Args) {
 	let _ = std::fs::remove_dir_all(&base);
 
 	let mat_of = |_w: &World| Material { l: l.clone(), f_reply: f_reply.clone(), f_id, incoming: incoming.clone(), ttl_cutoff };
-	let all_ops = vec![Op::Lock, Op::Finalize, Op::CancelF, Op::Receive, Op::Mine, Op::InitSend, Op::FinPostMine, Op::MineTtl];
+	let all_ops = vec![Op::Lock, Op::Finalize, Op::CancelF, Op::Receive, Op::Mine, Op::InitSend, Op::FinPostMine, Op::MineTtl, Op::Look];
 
 	let mut cfg_idx = 0usize;
 	let mut sched_total = 0u64;
@@ -511,7 +518,7 @@ pub fn run(a: &Args) {
 			}
 			p
 		} else {
-			vec![(Op::MineTtl, Op::Finalize), (Op::MineTtl, Op::CancelF), (Op::Finalize, Op::CancelF), (Op::Mine, Op::Lock), (Op::Mine, Op::Finalize)]
+			vec![(Op::MineTtl, Op::Finalize), (Op::MineTtl, Op::CancelF), (Op::Finalize, Op::CancelF), (Op::Mine, Op::Lock), (Op::Mine, Op::Finalize), (Op::FinPostMine, Op::Look), (Op::Mine, Op::Look)]
 		};
 		for (x, y) in pairs {
 			configs.push(vec![x, y]);
